@@ -639,6 +639,56 @@ static std::string do_unparse(int eslot)
   return out;
 }
 
+/* round trip: parse text in ctx A, unparse (T1), parse T1 in ctx B, unparse again (T2), run both */
+static std::string exe_text(Executable * x)
+{
+  char * mem = nullptr; size_t len = 0;
+  FILE * f = open_memstream(&mem, &len);
+  x->unparse(f);
+  fclose(f);
+  std::string t(mem, len);
+  free(mem);
+  return t;
+}
+
+static std::string run_exe_json(Executable * x, Context& ctx)
+{
+  std::string out;
+  g_budget_hit = false; g_steps = 0;
+  try { x->run(); out = "{\"r\":\"ok\"" + ret_json(ctx) + "}"; }
+  catch (RuntimeError& re) { out = rerr_json(re); if (ctx.returnCondition()) ctx.returnCondition(false); }
+  catch (std::exception& e) { out = foreign_json(e.what(), typeid(e).name()); }
+  catch (...) { out = foreign_json("", "unknown"); }
+  return out;
+}
+
+static std::string do_roundtrip(Context& a, Context& b, const std::string& text)
+{
+  Executable * xa = nullptr; Executable * xb = nullptr;
+  std::string out;
+  { StringReader rd(text);
+    try { xa = Parser::parse(a, rd); }
+    catch (ParseError& pe) { return "{\"r\":\"rejected\",\"err\":" + perr_json(pe) + "}"; }
+    catch (std::exception& e) { return foreign_json(e.what(), typeid(e).name()); } }
+  std::string t1 = exe_text(xa);
+  out = "{\"r\":\"ok\",\"t1\":\"" + hexenc(t1) + "\"";
+  { StringReader rd(t1);
+    try { xb = Parser::parse(b, rd); }
+    catch (ParseError& pe) { out += ",\"p2\":" + perr_json(pe); }
+    catch (std::exception& e) { out += ",\"p2\":" + foreign_json(e.what(), typeid(e).name()); } }
+  if (xb)
+  {
+    std::string t2 = exe_text(xb);
+    out += ",\"p2\":{\"r\":\"ok\"},\"t2\":\"" + hexenc(t2) + "\"";
+  }
+  out += ",\"runa\":" + run_exe_json(xa, a);
+  if (xb) out += ",\"runb\":" + run_exe_json(xb, b);
+  out += "}";
+  delete xa;
+  if (xb) delete xb;
+  return out;
+}
+
 /* value spec: i<dec> | d<hexfloat or text> | b0|b1 | s<hex> | x<hex> | c<a>,<b> | n<typename>[*level] */
 static Value make_value(const std::string& spec)
 {
@@ -763,6 +813,12 @@ static std::string run_op(const std::vector<std::string>& a)
     return do_exec(atoi(a[1].c_str()), c);
   }
   if (op == "unparse") return do_unparse(atoi(a[1].c_str()));
+  if (op == "rt")
+  {
+    Context * ca = ctx_of(a[1]); Context * cb = ctx_of(a[2]);
+    if (!ca || !cb) return "{\"r\":\"noctx\"}";
+    return do_roundtrip(*ca, *cb, hexdec(a[3]));
+  }
   if (op == "freeexe")
   {
     int e = atoi(a[1].c_str());
